@@ -4,3 +4,136 @@ pub use crate::handler::{
 };
 pub use crate::rpc::{Message, Request, RequestBody, RequestId, Response, ResponseBody};
 pub use crate::socket::VirtualWire;
+
+use crate::handler::verif_crypto as crypto;
+use crate::packet::{ChallengeData, Packet, PacketHeader, PacketKind, ProtocolIdentity};
+use crate::Enr;
+use enr::{CombinedKey, NodeId};
+use std::convert::TryFrom;
+
+/// Session keys as the initiator of a handshake sees them.
+#[derive(Clone, Debug, PartialEq, Eq)]
+pub struct RawKeys {
+    /// initiator -> recipient
+    pub initiator_key: [u8; 16],
+    /// recipient -> initiator
+    pub recipient_key: [u8; 16],
+}
+
+/// `crypto::encrypt_message`.
+pub fn aead_encrypt(key: &[u8; 16], nonce: [u8; 12], msg: &[u8], aad: &[u8]) -> Option<Vec<u8>> {
+    crypto::encrypt_message(key, nonce, msg, aad).ok()
+}
+
+/// `crypto::decrypt_message`.
+pub fn aead_decrypt(key: &[u8; 16], nonce: [u8; 12], msg: &[u8], aad: &[u8]) -> Option<Vec<u8>> {
+    crypto::decrypt_message(key, nonce, msg, aad).ok()
+}
+
+/// `crypto::derive_keys_from_pubkey`: the keys the recipient of a handshake derives.
+pub fn recipient_keys(
+    local_key: &CombinedKey,
+    local_id: &NodeId,
+    remote_id: &NodeId,
+    challenge_data: &[u8],
+    ephem_pubkey: &[u8],
+) -> Option<RawKeys> {
+    let cd = ChallengeData::try_from(challenge_data).ok()?;
+    let (initiator_key, recipient_key) =
+        crypto::derive_keys_from_pubkey(local_key, local_id, remote_id, &cd, ephem_pubkey).ok()?;
+    Some(RawKeys { initiator_key, recipient_key })
+}
+
+/// `crypto::verify_authentication_nonce`.
+pub fn verify_id_signature(
+    remote_enr: &Enr,
+    ephem_pubkey: &[u8],
+    challenge_data: &[u8],
+    dst_id: &NodeId,
+    sig: &[u8],
+) -> bool {
+    let Ok(cd) = ChallengeData::try_from(challenge_data) else { return false };
+    crypto::verify_authentication_nonce(&remote_enr.public_key(), ephem_pubkey, &cd, dst_id, sig)
+}
+
+/// Builds a WHOAREYOU datagram; returns (datagram, challenge data).
+pub fn craft_whoareyou(
+    dst_id: &NodeId,
+    request_nonce: [u8; 12],
+    id_nonce: [u8; 16],
+    enr_seq: u64,
+) -> (Vec<u8>, Vec<u8>) {
+    let p = Packet::new_whoareyou(request_nonce, id_nonce, ProtocolIdentity::default(), enr_seq);
+    let cd = p.authenticated_data();
+    (p.encode(dst_id), cd)
+}
+
+/// Builds a message datagram whose body is `ciphertext` as given (a "random packet" if it is noise).
+pub fn craft_message_raw(src_id: NodeId, dst_id: &NodeId, nonce: [u8; 12], ciphertext: Vec<u8>) -> Vec<u8> {
+    Packet::new_message(src_id, nonce, ProtocolIdentity::default(), ciphertext).encode(dst_id)
+}
+
+/// Builds a message datagram sealing `plaintext` under `key` (bound to the packet's own header).
+pub fn craft_message(
+    src_id: NodeId,
+    dst_id: &NodeId,
+    nonce: [u8; 12],
+    key: &[u8; 16],
+    plaintext: &[u8],
+) -> Option<Vec<u8>> {
+    let mut p = Packet::new_message(src_id, nonce, ProtocolIdentity::default(), Vec::new());
+    let aad = p.authenticated_data();
+    p.message = crypto::encrypt_message(key, nonce, plaintext, &aad).ok()?;
+    Some(p.encode(dst_id))
+}
+
+/// Builds a handshake datagram as `Session::encrypt_with_header` does, but with every ingredient
+/// chosen by the caller: `claimed_src_id` goes into the header, `signing_key` signs the id-nonce,
+/// `record` is attached, the ECDH is against `dst_enr`'s public key.  Returns the datagram, the
+/// session keys and the ephemeral public key.
+pub fn craft_handshake(
+    claimed_src_id: NodeId,
+    signing_key: &CombinedKey,
+    dst_enr: &Enr,
+    challenge_data: &[u8],
+    record: Option<Enr>,
+    nonce: [u8; 12],
+    plaintext: &[u8],
+) -> Option<(Vec<u8>, RawKeys, Vec<u8>)> {
+    let cd = ChallengeData::try_from(challenge_data).ok()?;
+    let contact = crate::NodeContact::try_from_enr(dst_enr.clone(), crate::IpMode::DualStack).ok()?;
+    let (initiator_key, recipient_key, ephem_pubkey) =
+        crypto::generate_session_keys(&claimed_src_id, &contact, &cd).ok()?;
+    let sig = crypto::sign_nonce(signing_key, &cd, &ephem_pubkey, &dst_enr.node_id()).ok()?;
+    let mut p = Packet::new_authheader(
+        claimed_src_id,
+        nonce,
+        ProtocolIdentity::default(),
+        sig,
+        ephem_pubkey.clone(),
+        record,
+    );
+    let aad = p.authenticated_data();
+    p.message = crypto::encrypt_message(&initiator_key, nonce, plaintext, &aad).ok()?;
+    Some((
+        p.encode(&dst_enr.node_id()),
+        RawKeys { initiator_key, recipient_key },
+        ephem_pubkey,
+    ))
+}
+
+/// Re-assembles a datagram from (possibly modified) decoded parts.
+pub fn reencode(
+    dst_id: &NodeId,
+    iv: u128,
+    nonce: [u8; 12],
+    kind: PacketKind,
+    message: Vec<u8>,
+) -> Vec<u8> {
+    Packet {
+        iv,
+        header: PacketHeader { message_nonce: nonce, protocol_identity: ProtocolIdentity::default(), kind },
+        message,
+    }
+    .encode(dst_id)
+}
